@@ -32,7 +32,23 @@ try:
     rec["their_meta"] = meta
     runsh = os.path.join(src, "demo", "run.sh")
     t = time.time()
-    rc0, before = sh(["sh", runsh, wt])
+    usage = open(runsh).read(600)
+    needs_bin = bool(re.search(r"usage: run.sh <llgo-binary>", usage))
+
+    def demo():
+        if not needs_bin:
+            return sh(["sh", runsh, wt])
+        binp = "/tmp/evalllgo_%s_%s" % (pid, n)
+        rb, ob = sh(["/tmp/llgo_tc/build_llgo.sh", wt, binp], timeout=2400)
+        if rb != 0:
+            return 99, "llgo build failed: " + ob[-400:]
+        r = sh(["sh", runsh, binp, wt])
+        try:
+            os.remove(binp)
+        except OSError:
+            pass
+        return r
+    rc0, before = demo()
     rec["demo_unchanged_rc"] = rc0
     rec["demo_unchanged_tail"] = before[-600:]
     rc, out = sh(["git", "-C", wt, "apply", os.path.join(src, "patch.diff")])
@@ -56,7 +72,7 @@ try:
                 r, o = sh(["go", "test", "-vet=off", "-count=1", "./" + d], cwd=wt, env=env, timeout=900)
                 tests[d] = {"rc": r, "tail": o[-300:]}
         rec["touched_package_tests"] = tests
-        rc1, after = sh(["sh", runsh, wt])
+        rc1, after = demo()
         rec["demo_changed_rc"] = rc1
         rec["demo_changed_tail"] = after[-800:]
         rec["demo_differs"] = (before != after)
@@ -83,6 +99,12 @@ finally:
     # our check wrote evidence/replay for the patched tree: evidence must come from /repo itself -> restore from git
     subprocess.run(["git", "-C", ROOT, "checkout", "--", "evidence/%s.json" % pid], capture_output=True)
 os.makedirs(dst, exist_ok=True)
+old_note = None
+if os.path.exists(os.path.join(dst, "meta.json")):
+    try:
+        old_note = json.load(open(os.path.join(dst, "meta.json"))).get("note")
+    except Exception:
+        pass
 shutil.copy(os.path.join(src, "patch.diff"), os.path.join(dst, "patch.diff"))
 if os.path.isdir(os.path.join(dst, "demo")):
     shutil.rmtree(os.path.join(dst, "demo"))
@@ -92,7 +114,7 @@ json.dump({"property": pid, "breaks": rec.get("their_meta", {}).get("summary", "
            "what_we_ran": "scratch worktree of /repo HEAD %s: demo/run.sh on the unchanged tree (rc %s), git apply patch.diff, go test of touched pure-Go packages, demo/run.sh on the changed tree (rc %s, output differs: %s), then VERIF_REPO=<worktree> bin/check %s --tier quick (rc %s)" % (
                rec.get("repo_head"), rec.get("demo_unchanged_rc"), rec.get("demo_changed_rc"), rec.get("demo_differs"), pid, rec.get("check_rc")),
            "confirmed": bool(rec.get("patch_applies") and rec.get("demo_differs")),
-           "caught_by_check": rec.get("caught"), "check_keys": rec.get("check_keys"), "details": rec},
+           "caught_by_check": rec.get("caught"), "check_keys": rec.get("check_keys"), "note": old_note or "", "details": rec},
           open(os.path.join(dst, "meta.json"), "w"), indent=1)
 print(pid, n, "applies", rec.get("patch_applies"), "demo unchanged rc", rec.get("demo_unchanged_rc"), "changed rc", rec.get("demo_changed_rc"),
       "differs", rec.get("demo_differs"), "check rc", rec.get("check_rc"), "caught", rec.get("caught"),
